@@ -165,6 +165,16 @@ Theorem C18_threads_alone_partial : forall (R : Type) (sched : list nat)
 Proof. exact @threads_alone. Qed.
 Print Assumptions C18_threads_alone_partial.
 
+(** Independence of progress: whatever thread [j] does and wherever it stops — e.g. in
+    the middle of an upload whose body never arrives — every other thread's view is
+    the one it has when [j] is never scheduled at all. *)
+Theorem C18_stalled_thread_harmless_partial : forall (R : Type) (sched : list nat)
+    (s : list (thread R) * node) (i j : nat),
+  thread_roots_disjoint (fst s) -> i <> j ->
+  view (grun s sched) i = view (grun s (remove Nat.eq_dec j sched)) i.
+Proof. exact @stalled_thread_harmless. Qed.
+Print Assumptions C18_stalled_thread_harmless_partial.
+
 (** fs_local.go Create is such a program: Stat, createTemp in the target's directory,
     io.Copy into the temporary file, Rename over the target.  Run alone it ends with
     the answer and the tree of the one-step PUT of [Concurrent.sem] (which the harness
